@@ -33,6 +33,7 @@ def plan_c08(ctx):
     jobs += o.plan_sweep_jobs(ctx, "typed", 1000, gen_files)
     jobs += o.plan_sweep_jobs(ctx, "bytes", 1000, gen_files // 4)
     jobs += o.plan_sweep_jobs(ctx, "reencode", 1000, 0)
+    jobs += o.plan_sweep_jobs(ctx, "huge", 1000, 0)
     jobs += o.plan_run_jobs(ctx, "C08", o.BUDGET["C08"][ctx.tier])
     res = o.run_workers(ctx, jobs)
     o.handle_deaths(ctx, res)
@@ -69,6 +70,7 @@ def plan_c07(ctx):
     jobs += o.plan_sweep_jobs(ctx, "trunc", 1000, 1500, prop="C07")
     jobs += o.plan_sweep_jobs(ctx, "typed", 1000, 1500, prop="C07")
     jobs += o.plan_sweep_jobs(ctx, "bytes", 1000, 400, prop="C07")
+    jobs += o.plan_sweep_jobs(ctx, "huge", 1000, 0, prop="C07")
     jobs += o.plan_run_jobs(ctx, "C07", o.BUDGET["C07"][ctx.tier])
     res = o.run_workers(ctx, jobs)
     o.handle_deaths(ctx, res)
